@@ -21,7 +21,7 @@ def reference(mode):
 
 def _reference(mode):
     from props import models as M
-    if mode in ("export", "export8", "export_over", "export_direct"):
+    if mode in ("export", "export8", "export_over", "export_direct", "export_nodt"):
         import importlib.util
         spec = importlib.util.spec_from_file_location("w", os.path.join(os.path.dirname(__file__), "pt_writer.py"))
         src = open(spec.origin).read()
@@ -29,12 +29,13 @@ def _reference(mode):
         start = src.index("def build_export_pt")
         end = src.index('if mode == "export"')
         exec("import numpy as np\n" + src[start:end], ns)
-        pt = ns["build_export_pt"](8 if mode == "export8" else 4)
+        pt = ns["build_export_pt"](8 if mode == "export8" else 4, None if mode == "export_nodt" else 0.2)
     else:
         bath = oq.Bath(0.5 * M.SX, M.ohmic(alpha=0.3, temperature=0.3))
         pt = oq.pt_tempo_compute(bath, 0.0, 0.9, oq.TempoParameters(dt=0.2, epsrel=1e-7), progress_type="silent")
     sysm = oq.System(0.5 * M.SZ + 0.3 * M.SX)
-    dyn = np.array(oq.compute_dynamics(sysm, M.RHO_GEN2, process_tensor=pt, progress_type="silent").states)
+    dyn = np.array(oq.compute_dynamics(sysm, M.RHO_GEN2, process_tensor=pt, progress_type="silent",
+                                       **({} if pt.dt is not None else {"dt": 0.2})).states)
     return pt, sysm, dyn
 
 
@@ -73,7 +74,8 @@ def examine(mode, fname):
                         if not np.array_equal(pt.get_cap_tensor(k), ref.get_cap_tensor(k)):
                             complete = False
                 try:
-                    dyn = np.array(oq.compute_dynamics(sysm, M.RHO_GEN2, process_tensor=pt, progress_type="silent").states)
+                    dyn = np.array(oq.compute_dynamics(sysm, M.RHO_GEN2, process_tensor=pt, progress_type="silent",
+                                                       **({} if pt.dt is not None else {"dt": 0.2})).states)
                     if dyn.shape != rdyn.shape or np.abs(dyn - rdyn).max() > 1e-6:
                         complete = False
                         info["dyn"] = "differs"
@@ -83,7 +85,8 @@ def examine(mode, fname):
             else:
                 # does it silently compute with what is there?
                 try:
-                    dyn = oq.compute_dynamics(sysm, M.RHO_GEN2, process_tensor=pt, progress_type="silent")
+                    dyn = oq.compute_dynamics(sysm, M.RHO_GEN2, process_tensor=pt, progress_type="silent",
+                                              **({} if pt.dt is not None else {"dt": 0.2}))
                     info["dyn"] = f"computes {len(dyn.times) - 1} steps"
                 except Exception as ex:  # noqa
                     info["dyn"] = "raises:" + type(ex).__name__
